@@ -76,9 +76,10 @@ class Raw(bytes):
 
 
 class Stream:
-    def __init__(self, d: Optional[Dict[Any, Any]] = None, data: bytes = b"") -> None:
+    def __init__(self, d: Optional[Dict[Any, Any]] = None, data: bytes = b"", tail: bytes = b"\n") -> None:
         self.d: Dict[Any, Any] = dict(d or {})
         self.data = bytes(data)
+        self.tail = tail    # what stands between the data and `endstream` (an EOL is recommended, not required)
 
     def __repr__(self) -> str:
         return "Stream(%r, %d bytes)" % (self.d, len(self.data))
@@ -183,7 +184,7 @@ def ser_indirect(n: int, g: int, o: Any, strhook: StrHook = None, stream_data: O
         if "Length" not in d:
             d["Length"] = len(data)
         return (b"%d %d obj\n" % (n, g) + ser_dict(d, strhook) + b"\nstream" + stream_eol + data
-                + b"\nendstream\nendobj\n")
+                + getattr(o, "tail", b"\n") + b"endstream\nendobj\n")
     return b"%d %d obj\n" % (n, g) + ser(o, strhook) + b"\nendobj\n"
 
 
